@@ -18,3 +18,8 @@ def main(tier, seed):
                           builders=[C.b_source, C.b_passes], N=4 if tier == "quick" else 6,
                           assumptions=["passes whose output contains an abstracted probability symbol (_probN) are not compared",
                                        "trivial_guard is excluded (changes the meaning by design)"])
+
+
+def replay(path):
+    from ..driver import replay_analysis
+    return replay_analysis("C02", path, want=["parsed", "passes"], builders=[C.b_source, C.b_passes], N=4, variants=[("", {}), ("-c2a", {"cond2arithm": True}), ("-tc", {"transform_categoricals": True}), ("-c2a-tc", {"cond2arithm": True, "transform_categoricals": True})])
